@@ -119,6 +119,13 @@ func scenarios() []scenario {
 		dump.File{Name: "y.yang", Text: `module y { ` + H("y") + ` typedef t { type int32; } identity b; grouping g { leaf gy { type t; } } container cy; }`},
 		dump.File{Name: "m.yang", Text: `module m { ` + H("m") + ` import x { prefix p; } include s1; typedef tm { type p:t; } identity im { base p:b; } leaf lm { type tm; } leaf lm2 { type p:t; } container um { uses p:g; } augment /p:cx { leaf am { type p:t; } } leaf rm { type identityref { base p:b; } } }`},
 		dump.File{Name: "s1.yang", Text: `submodule s1 { belongs-to m { prefix m; } import y { prefix p; } typedef ts { type p:t; } identity is { base p:b; } leaf ls { type ts; } leaf ls2 { type p:t; } container us { uses p:g; } augment /p:cy { leaf as { type p:t; } } leaf rs { type identityref { base p:b; } } }`})
+	// names that a careless comparison takes for equal: differing only in case, only in the
+	// separator, or ordered differently as numbers and as text - among siblings written together,
+	// brought together by augments, among identities of one base, typedefs, enums and module names
+	add("names-equal-under-folding", nil, a,
+		f("m1", `container box { leaf MTU { type string; } leaf mtu { type string; } leaf Mtu { type string; } leaf a-b { type string; } leaf a_b { type string; } leaf a.b { type string; } leaf ab { type string; } leaf e10 { type string; } leaf e9 { type string; } leaf e09 { type string; } } identity X { base a:base; } identity x { base a:base; } identity x-1 { base a:base; } identity x_1 { base a:base; } typedef T { type string; } typedef t { type int8; } leaf lt { type T; } leaf lt2 { type t; } leaf en { type enumeration { enum A; enum a; enum B { value 5; } enum b { value 7; } } } augment /a:c { leaf ID { type string; } leaf Id { type string; } leaf id { type string; } }`),
+		f("M1", `identity x { base a:base; } identity X { base a:base; } augment /a:c { leaf iD { type string; } leaf I-D { type string; } leaf I_D { type string; } } deviation /a:l { deviate replace { default M; } }`),
+		f("m-1", `identity x { base a:base; } augment /a:c { leaf i.d { type string; } } augment /a:ch { leaf S1 { type string; } case C2 { leaf S2 { type string; } } }`))
 	// a closure of more than 32 identities in which names repeat across modules
 	add("many-identities-with-equal-names", nil, func() []dump.File {
 		fs := []dump.File{{Name: "i0.yang", Text: "module i0 { " + H("i0") + " identity root; leaf r { type identityref { base root; } } }"}}
